@@ -258,7 +258,10 @@ func registerNumberStubs(reg func(string, intrinsic)) {
 		if x.branch(rf[4].(*Term)) {
 			panic(unsupported{"hexadecimal float literal (outside the PF contract)"})
 		}
-		return tuple{x.pf(x.bytesOf(s)), iface{}}
+		v := x.pf(x.bytesOf(s))
+		// a decimal literal accepted without error denotes a finite number (range errors are assumed away)
+		x.axiom(x.tb.Not(x.tb.Or(x.tb.fun(OFIsNaN, v), x.tb.fun(OFIsInf, v))))
+		return tuple{v, iface{}}
 	})
 	// harness-side access to the same contract function
 	reg(hp+"verifPF", func(x *Exec, fr *frame, args []value) value {
